@@ -45,7 +45,9 @@ Failed(r) ==
        \cup Clause("verdict", valid => Verdict(input, r.n, r.st, out))
        \cup Clause("check-mode-disagrees",
                    (valid /\ r.chk # "na") => ((r.chk = "ok") <=> CheckModePasses(out)))
-       \cup Clause("not-idempotent", (oru /\ r.st = "ok") => (r.st2 = "ok" /\ r.same2))
+       \cup Clause("not-idempotent",
+                   (oru /\ r.st = "ok") => /\ r.same2 /\ r.st2 \in {"ok", "fail"}
+                                           /\ (valid /\ WithinLookBack(out, r.n)) => r.st2 = "ok")
        \cup Clause("emulator-rejects",
                    (oru /\ r.st = "ok" /\ EmuShape(input)) => r.emu = "ok")
 
